@@ -75,6 +75,8 @@ pub struct SrvCfg {
     pub via_env: bool,
     /// raw extra settings (key, value) appended as written
     pub extra: Vec<(String, String)>,
+    /// extra environment variables for the server process (not settings), e.g. TZ
+    pub env_extra: Vec<(String, String)>,
 }
 
 pub struct ServerProc {
@@ -151,6 +153,9 @@ impl ServerProc {
         let settings = Self::settings(cfg, port, hc, &dir);
         let mut cmd = Command::new(SERVER_BIN);
         cmd.env_clear().env("RUST_BACKTRACE", "0").env("PATH", "/usr/bin:/bin");
+        for (k, v) in &cfg.env_extra {
+            cmd.env(k, v);
+        }
         if cfg.via_env {
             for (k, v) in &settings {
                 cmd.env(format!("ROUGHENOUGH_{}", k.to_uppercase()), v);
